@@ -9,6 +9,7 @@ import (
 	"path/filepath"
 	"strconv"
 	"strings"
+	"syscall"
 	"testing"
 
 	"github.com/itchio/headway/state"
@@ -19,15 +20,22 @@ import (
 type simReaderAt struct {
 	b     []byte
 	yield func(string)
-	gate  func(off int64) // called before a read is served (stalled reads)
+	gate  func(off int64)      // called before a read is served (stalled reads)
+	fail  func(off int64) bool // true: this read fails with ErrInjected
 }
 
 func (r *simReaderAt) ReadAt(p []byte, off int64) (int, error) {
+	// the fate of a read is decided when it is issued: one that was on its way when the
+	// connection died still delivers, however late
+	failed := r.fail != nil && r.fail(off)
 	if r.yield != nil {
 		r.yield("zip.ReadAt")
 	}
 	if r.gate != nil {
 		r.gate(off)
+	}
+	if failed {
+		return 0, ErrInjected
 	}
 	if off >= int64(len(r.b)) {
 		return 0, io.EOF
@@ -117,10 +125,22 @@ func TestC19(t *testing.T) {
 		src := filepath.Join(dir, "src")
 		Must(tree.Materialize(src), "materialize")
 		wantD, wantF, wantL := kindCounts(tree)
+		// sometimes something that cannot be archived sits in the middle of the directory (a unix
+		// socket node): the compressor may refuse with an error - or leave it out - but it must not
+		// report success for an archive that has lost the entries that come after it
+		withSocket := !wide && rapid.IntRange(0, 7).Draw(rt, "socket") == 0
+		if withSocket {
+			Must(syscall.Mknod(filepath.Join(src, "m.sock"), syscall.S_IFSOCK|0o644, 0), "mknod socket")
+			Ev.Fault("unarchivable_entry_in_source(socket)", 1)
+		}
 
 		if !wide && rapid.IntRange(0, 4).Draw(rt, "tar") == 0 {
 			var buf bytes.Buffer
 			if _, err := archiver.CompressTar(&buf, src, Quiet()); err != nil {
+				if withSocket {
+					Ev.Probe("compressor_refused_unarchivable_entry")
+					return
+				}
 				Violation(rt, "C19/compress-tar", "CompressTar: %v", err)
 				return
 			}
@@ -133,8 +153,15 @@ func TestC19(t *testing.T) {
 				Violation(rt, "C19/extract-tar", "ExtractTar: %v %s", err, p)
 				return
 			}
-			if d := tree.Diff(MustSnapshot(out).Tree); d != "" {
-				Violation(rt, "C19/tar-wrong-tree", "tar round trip: %s", d)
+			gotTar := MustSnapshot(out).Tree
+			if withSocket {
+				delete(gotTar, "m.sock") // whatever became of the socket itself
+			}
+			if d := tree.Diff(gotTar); d != "" {
+				Violation(rt, "C19/tar-wrong-tree", "tar round trip (socket in source: %v, CompressTar returned nil): %s", withSocket, d)
+				return
+			}
+			if withSocket {
 				return
 			}
 			if res.Dirs != wantD || res.Files != wantF || res.Symlinks != wantL {
@@ -148,7 +175,25 @@ func TestC19(t *testing.T) {
 
 		var zbuf bytes.Buffer
 		if _, err := archiver.CompressZip(&zbuf, src, Quiet()); err != nil {
+			if withSocket {
+				Ev.Probe("compressor_refused_unarchivable_entry")
+				return
+			}
 			Violation(rt, "C19/compress-zip", "CompressZip: %v", err)
+			return
+		}
+		if withSocket {
+			// zip takes the socket for an empty entry: extract plainly and compare the rest
+			outS := filepath.Join(dir, "outsock")
+			if _, err := archiver.ExtractZip(&simReaderAt{b: zbuf.Bytes()}, int64(zbuf.Len()), outS, archiver.ExtractSettings{Consumer: Quiet(), Concurrency: 2}); err != nil {
+				Violation(rt, "C19/extract-error", "ExtractZip of an archive made from a directory with a socket: %v", err)
+				return
+			}
+			gotZ := MustSnapshot(outS).Tree
+			delete(gotZ, "m.sock")
+			if d := tree.Diff(gotZ); d != "" {
+				Violation(rt, "C19/zip-wrong-tree", "zip round trip (socket in source, CompressZip returned nil): %s", d)
+			}
 			return
 		}
 		zb := zbuf.Bytes()
@@ -306,6 +351,56 @@ func TestC19(t *testing.T) {
 			}
 			return ""
 		}
+		// sometimes the source fails while one entry's data is read (a dropped connection): ExtractZip
+		// returns that error, and the caller starts over at once, in the same process, with the same
+		// resume file and a source that works. Whatever the first call still has in flight must not
+		// touch the directory any more.
+		failEntry := -1
+		restartFinished := false
+		if !wide && crashAt < 0 && len(kinds) >= 3 && rapid.IntRange(0, 1).Draw(rt, "sourcefails") == 0 {
+			failEntry = rapid.IntRange(0, len(kinds)-1).Draw(rt, "failentry")
+			zr, err := stdzip.NewReader(bytes.NewReader(zb), int64(len(zb)))
+			Must(err, "stdlib zip reader")
+			f := zr.File[failEntry]
+			if o, err := f.DataOffset(); err == nil && f.CompressedSize64 > 0 {
+				lo, hi := o, o+int64(f.CompressedSize64)
+				// one other entry's reads that were issued before the connection died are slow: they
+				// deliver, but only after the caller has long started over (or after a few thousand
+				// scheduler steps, whichever comes first)
+				if se := rapid.IntRange(0, len(kinds)-1).Draw(rt, "slowentry"); se != failEntry {
+					if so, err := zr.File[se].DataOffset(); err == nil {
+						hdrLo, hdrHi := int64(0), so
+						if se > 0 {
+							if po, perr := zr.File[se-1].DataOffset(); perr == nil {
+								hdrLo = po + int64(zr.File[se-1].CompressedSize64)
+							}
+						}
+						spins := 0
+						ra.gate = func(off int64) {
+							if off < hdrLo || off >= hdrHi {
+								return
+							}
+							for !restartFinished && spins < 4000 {
+								spins++
+								s.Yield("zip.ReadAt.slow-response")
+							}
+						}
+					}
+				}
+				// (once the connection is gone, it is gone for every read of that source)
+				dead := false
+				ra.fail = func(off int64) bool {
+					if off >= lo && off < hi {
+						dead = true
+					}
+					return dead
+				}
+				s.Invariant = nil // the resume file is about to be shared by two calls
+			} else {
+				failEntry = -1
+			}
+		}
+		retried := false
 		s.Run(t, func() {
 			res, xerr = archiver.ExtractZip(ra, int64(len(zb)), out, archiver.ExtractSettings{
 				Consumer: cons, Concurrency: conc, ResumeFrom: resume,
@@ -317,7 +412,31 @@ func TestC19(t *testing.T) {
 					s.Yield("entry-done")
 				},
 			})
+			if failEntry >= 0 && xerr != nil {
+				retried = true
+				Ev.Fault("source_read_error_then_restart_in_process", 1)
+				res, xerr = archiver.ExtractZip(&simReaderAt{b: zb, yield: s.Yield}, int64(len(zb)), out, archiver.ExtractSettings{
+					Consumer: Quiet(), Concurrency: conc, ResumeFrom: resume,
+				})
+				restartFinished = true
+			}
 		})
+		if retried && !s.BudgetExceeded && !s.Stuck && s.Panic == "" {
+			if xerr != nil {
+				Violation(rt, "C19/resume-failed", "ExtractZip started over after a source error (entry %d) failed: %v", failEntry, xerr)
+				return
+			}
+			Ev.ProbeIf(s.DrainSteps > 0, "first_call_left_goroutines_behind_that_ran_after_the_restart_returned")
+			// (the scheduler has meanwhile run every goroutine the first call left behind to its end)
+			if d := tree.Diff(MustSnapshot(out).Tree); d != "" {
+				Violation(rt, "C19/stray-worker-after-return", "ExtractZip returned a source error (entry %d) while workers were still running; the caller started over with the same resume file, that run succeeded - and afterwards the tree is wrong: %s (%d entries, concurrency %d, policy %d)\nschedule tail:\n%s", failEntry, d, len(kinds), conc, spec.Policy, joinLines(tail(s.Log, 30), 30))
+				return
+			}
+			Ev.Eval(tree.Hash()^fnv64([]byte(fmt.Sprint("retry", failEntry, conc)))^s.LogHash(), true, func() interface{} {
+				return map[string]interface{}{"format": "zip", "setup": fmt.Sprintf("%d entries, concurrency %d, source fails in entry %d, restart in process", len(kinds), conc, failEntry), "sched_steps": s.Steps}
+			})
+			return
+		}
 		if s.BudgetExceeded {
 			return
 		}
